@@ -432,7 +432,17 @@ func RunWorker(chk *Check, tier string, seed int64, shard, n int, dir string) in
 				buf := make([]byte, 1<<20)
 				buf = buf[:runtime.Stack(buf, true)]
 				desc := c.currentCase()
-				c.Violate(map[string]string{"kind": "hang", "func": hangFunc(string(buf))},
+				feats := map[string]string{"kind": "hang", "func": hangFunc(string(buf))}
+				if chk.CrashFeatures != nil {
+					// an announced probe keeps its name, and the frame that happens to be innermost at the time of the dump is dropped
+					if extra := chk.CrashFeatures(desc); len(extra) > 0 {
+						delete(feats, "func")
+						for k, v := range extra {
+							feats[k] = v
+						}
+					}
+				}
+				c.Violate(feats,
 					map[string]any{"case": desc}, fmt.Sprintf("case consumed > %.0f CPU-seconds\n%s", bound, truncate(string(buf), 6000)))
 				c.flush(false)
 				os.Exit(4)
